@@ -99,6 +99,31 @@ def _to_assign(stmts: List[ast.stmt], res: Optional[str]) -> List[ast.stmt]:
     return out
 
 
+def _sink(stmts: List[ast.stmt], res: str, mk: Any) -> Optional[List[ast.stmt]]:
+    """the statements of an expanded helper whose every exit ends in `res = V` in tail position, with each such assignment replaced
+    by mk(V) (the statement the helper call stood in); None when some exit does not have that shape or res is used otherwise"""
+    n_uses = sum(1 for s in stmts for n in ast.walk(s) if isinstance(n, ast.Name) and n.id == res)
+
+    def tail(block: List[ast.stmt]) -> Optional[Tuple[List[ast.stmt], int]]:
+        if not block:
+            return None
+        last = block[-1]
+        if isinstance(last, ast.Assign) and len(last.targets) == 1 and isinstance(last.targets[0], ast.Name) and last.targets[0].id == res:
+            return block[:-1] + [mk(last.value, last)], 1
+        if isinstance(last, ast.If) and last.orelse:
+            a = tail(last.body)
+            b = tail(last.orelse)
+            if a is None or b is None:
+                return None
+            new = ast.copy_location(ast.If(test=last.test, body=a[0], orelse=b[0]), last)
+            return block[:-1] + [new], a[1] + b[1]
+        return None
+    r = tail(stmts)
+    if r is None or r[1] != n_uses:
+        return None
+    return r[0]
+
+
 def _to_assign_flag(stmts: List[ast.stmt], res: Optional[str], flag: str, in_loop: bool = False) -> List[ast.stmt]:
     """general form for returns inside loops / with / try: `return v` becomes `res = v; flag = True` (+ `break` inside a
     loop) and every statement that follows a statement which may have returned is guarded by `if not flag:`"""
@@ -200,17 +225,97 @@ def _assigned_names(fnode: ast.AST) -> Set[str]:
     return out
 
 
+def _walk_own(fnode: ast.AST) -> Any:
+    """nodes of a function body, nested function definitions included as nodes but not entered"""
+    todo = list(ast.iter_child_nodes(fnode))
+    while todo:
+        n = todo.pop()
+        yield n
+        if not isinstance(n, (ast.FunctionDef, ast.AsyncFunctionDef, ast.ClassDef, ast.Lambda)):
+            todo.extend(ast.iter_child_nodes(n))
+
+
+def _drop_unused_nested(fnode: ast.AST) -> None:
+    """local function definitions every call of which has been inlined are no longer part of what the function does"""
+    used = {n.id for n in ast.walk(fnode) if isinstance(n, ast.Name)}
+    for n in [fnode] + [x for x in _walk_own(fnode)]:
+        for fld in ('body', 'orelse', 'finalbody'):
+            b = getattr(n, fld, None)
+            if isinstance(b, list) and any(isinstance(x, (ast.FunctionDef, ast.AsyncFunctionDef)) and x.name not in used for x in b) and n is not None:
+                if isinstance(n, (ast.FunctionDef, ast.AsyncFunctionDef)) and n is not fnode:
+                    continue
+                kept = [x for x in b if not (isinstance(x, (ast.FunctionDef, ast.AsyncFunctionDef)) and x.name not in used and _was_inlined(x))]
+                setattr(n, fld, kept or [ast.copy_location(ast.Pass(), b[0])])
+
+
+_INLINED_DEFS: Set[Tuple[str, int]] = set()
+
+
+def _was_inlined(d: ast.AST) -> bool:
+    return (d.name, d.lineno) in _INLINED_DEFS      # type: ignore[attr-defined]
+
+
+class _NestedFunc:
+    """a function defined in the body of another one, seen as a helper of that function only"""
+    is_static = True
+    is_property = False
+
+    def __init__(self, outer: Any, node: ast.AST):
+        self.module = outer.module
+        self.node = node
+        self.orig_node = node
+        self.cls = outer.cls
+        self.name = node.name       # type: ignore[attr-defined]
+        self.key = '%s.<locals>.%s' % (outer.key, self.name)
+        self.qualname = '%s.<locals>.%s' % (outer.qualname, self.name)
+
+
 class Inliner:
     def __init__(self, prog: Any):
         self.prog = prog
+        self._nested_cache: Dict[int, Dict[str, Any]] = {}
         self.counter = 0
         self.inlined_into: Dict[str, Set[str]] = {}     # helper key -> caller keys
         self.call_sites: Dict[str, int] = {}
 
     # ------------------------------------------------------------ callee resolution
+    def _nested(self, caller: Any, name: str) -> Optional[Any]:
+        """a function defined inside the caller's own body (a closure used as a local helper): defined once, never rebound, never used
+        as a value (only called), no nonlocal / generator / default computed at definition time.  Its free variables are read when
+        it is called, i.e. exactly where the inlined statements read them."""
+        root = caller.orig_node if hasattr(caller, 'orig_node') else caller.node
+        cache = self._nested_cache.setdefault(id(root), {})
+        if name in cache:
+            return cache[name]
+        cache[name] = None
+        defs = [n for n in _walk_own(root) if isinstance(n, (ast.FunctionDef, ast.AsyncFunctionDef)) and n.name == name]
+        if len(defs) != 1:
+            return None
+        d = defs[0]
+        a = d.args
+        if d.decorator_list or a.vararg or a.kwarg or a.kwonlyargs or a.posonlyargs or any(not isinstance(x, ast.Constant) for x in a.defaults):
+            return None
+        if any(isinstance(n, (ast.Yield, ast.YieldFrom, ast.Global, ast.Nonlocal)) for n in ast.walk(d)):
+            return None
+        if name in {x.arg for x in root.args.args + root.args.kwonlyargs}:
+            return None
+        call_funcs = {id(n.func) for n in ast.walk(root) if isinstance(n, ast.Call)}
+        for n in ast.walk(root):
+            if isinstance(n, ast.Name) and n.id == name and (not isinstance(n.ctx, ast.Load) or id(n) not in call_funcs):
+                return None         # rebound, deleted, or handed around as a value
+        # the helper's own locals must not capture a name the enclosing function also uses: they are renamed, free names are not
+        fi = _NestedFunc(caller, d)
+        cache[name] = fi
+        return fi
+
     def _callee(self, caller: Any, call: ast.Call) -> Optional[Tuple[Any, Optional[ast.AST]]]:
         f = call.func
         if isinstance(f, ast.Name):
+            nf = self._nested(caller, f.id) if not isinstance(caller, _NestedFunc) else None
+            if nf is not None:
+                if any(isinstance(k, ast.keyword) and k.arg is None for k in call.keywords) or any(isinstance(x, ast.Starred) for x in call.args):
+                    return None
+                return nf, None
             # a module-level helper of the caller's own module with a name outside the vocabulary
             if f.id in ANCHORS or f.id.startswith('__'):
                 return None
@@ -338,7 +443,11 @@ class Inliner:
         body = [ren.visit(s) for s in body]
         # inline nested helper calls of the callee in its own context
         body = self._inline_block(callee, body, depth + 1, stack + (callee.key,))
+        # the argument expressions belong to the caller: helper calls among them are inlined in the caller's context
+        pre = self._inline_block(caller, pre, depth + 1, stack)
         self.inlined_into.setdefault(callee.key, set()).add(caller.key)
+        if isinstance(callee, _NestedFunc):
+            _INLINED_DEFS.add((callee.name, callee.node.lineno))
         stmts = pre + body
         for s in stmts:
             ast.fix_missing_locations(s)
@@ -424,6 +533,27 @@ class Inliner:
                 r = self._expand(caller, c, awaited, False, depth, stack)
                 if r is not None:
                     return r[0]
+        # `return h(...)` / `x = h(...)` where the helper's result is the whole value: the helper's own `return V` statements
+        # become `return V` / `x = V` in place (no result variable), so the statement reads as if the helper had never been
+        # split off
+        if isinstance(s, (ast.Return, ast.Assign, ast.AnnAssign)) and getattr(s, 'value', None) is not None:
+            v = s.value
+            awaited = isinstance(v, ast.Await)
+            c = v.value if awaited else v
+            if isinstance(c, ast.Call):
+                r = self._expand(caller, c, awaited, True, depth, stack)
+                if r is not None:
+                    stmts, res = r
+
+                    def mk(val: ast.AST, src: ast.stmt, s_: ast.stmt = s) -> ast.stmt:
+                        n2 = copy.copy(s_)
+                        n2.value = val      # type: ignore[attr-defined]
+                        return ast.copy_location(n2, src) if not isinstance(s_, ast.Return) else ast.copy_location(n2, src)
+                    sunk = _sink(stmts, res, mk) if res is not None else None
+                    if sunk is not None:
+                        return sunk
+                    s.value = ast.copy_location(ast.Name(id=res, ctx=ast.Load()), c)
+                    return stmts + [s]
         for fld in ('value',):
             if isinstance(s, (ast.Assign, ast.AnnAssign, ast.AugAssign, ast.Return, ast.Expr)) and getattr(s, fld, None) is not None:
                 pre = self._hoist(caller, s, fld, depth, stack)
@@ -565,9 +695,20 @@ class Inliner:
         for f in funcs:
             new = copy.deepcopy(f.orig_node)
             new.body = self._inline_block(f, new.body, 0, (f.key,))
+            _drop_unused_nested(new)
             ast.fix_missing_locations(new)
             f.node = new
         self.prog.inlined_helpers = set(self.inlined_into)
+        # helpers some call of which could NOT be expanded (a conditionally evaluated position, too deep, recursion): a rule about what
+        # per-function code does has to look at those as functions of their own as well (by name: conservative)
+        called = set()
+        for f in funcs:
+            for n in ast.walk(f.node):
+                if isinstance(n, ast.Call):
+                    called.add(n.func.attr if isinstance(n.func, ast.Attribute) else n.func.id if isinstance(n.func, ast.Name) else None)
+                elif isinstance(n, ast.Attribute) and isinstance(n.ctx, ast.Load):
+                    called.add(n.attr)          # handed around as a value
+        self.prog.residual_helpers = {k for k in self.prog.inlined_helpers if k.split('::')[-1].split('.')[-1] in called}
         # the inlined helpers' statements are analysed as part of their callers: take them out of the per-class method
         # tables that rules iterate (they stay reachable by name through ClassInfo.inlined_methods / lookup_method)
         for f in funcs:
